@@ -17,6 +17,9 @@ import (
 // property's rules are run on it - statically, nothing is executed. A control that no longer
 // fires is recorded as controls_failed in the evidence and on stderr; it never turns into a
 // VIOLATION of the property, because the tree under test is not at fault.
+// Negative controls: the confirmed behaviour-preserving refactorings under <verif>/benign are
+// applied the same way and must be silent; one that is reported is recorded as
+// negative_controls_failed (a false alarm of the machinery, again not a VIOLATION).
 func runControls(r *Report, id, repo, verif string) {
 	metas, _ := filepath.Glob(filepath.Join(verif, "seeded", "*", "meta.json"))
 	sort.Strings(metas)
@@ -102,6 +105,74 @@ func runControls(r *Report, id, repo, verif string) {
 		}(i, dir)
 	}
 	wg.Wait()
+	// negative controls: confirmed behaviour-preserving refactorings under <verif>/benign must stay silent
+	bens, _ := filepath.Glob(filepath.Join(verif, "benign", "*", "patch.diff"))
+	sort.Strings(bens)
+	neg := make([]ctl, len(bens))
+	for i, pf := range bens {
+		wg.Add(1)
+		go func(i int, pf string) {
+			defer wg.Done()
+			sem <- struct{}{}
+			defer func() { <-sem }()
+			c := ctl{Seed: filepath.Base(filepath.Dir(pf))}
+			tmp, err := os.MkdirTemp("", "mpbneg-")
+			if err != nil {
+				c.Note = err.Error()
+				neg[i] = c
+				return
+			}
+			defer os.RemoveAll(tmp)
+			tree := filepath.Join(tmp, "tree")
+			scratch := filepath.Join(tmp, "verif")
+			_ = os.MkdirAll(scratch, 0o755)
+			if out, err := exec.Command("cp", "-r", repo, tree).CombinedOutput(); err != nil {
+				c.Note = "copy: " + string(out)
+				neg[i] = c
+				return
+			}
+			_ = os.RemoveAll(filepath.Join(tree, ".git"))
+			ap := exec.Command("patch", "-p1", "-s", "-i", pf)
+			ap.Dir = tree
+			if out, err := ap.CombinedOutput(); err != nil {
+				c.Note = "patch does not apply to the current tree: " + strings.TrimSpace(string(out))
+				neg[i] = c
+				return
+			}
+			c.Applied = true
+			if kf, err := os.ReadFile(filepath.Join(verif, "known_findings.json")); err == nil {
+				_ = os.WriteFile(filepath.Join(scratch, "known_findings.json"), kf, 0o644)
+			}
+			cmd := exec.Command(self, "-repo", tree, "-verif", scratch, "-tier", "quick", id)
+			cmd.Env = os.Environ()
+			out, _ := cmd.Output()
+			for _, line := range strings.Split(string(out), "\n") {
+				if strings.HasPrefix(line, "VIOLATED ") || strings.HasPrefix(line, "UNDECIDED ") || strings.HasPrefix(line, "UNRESOLVED") {
+					f := strings.Fields(line)
+					if len(f) > 1 {
+						c.Rules = append(c.Rules, f[1])
+					}
+				}
+			}
+			c.Fired = cmd.ProcessState == nil || cmd.ProcessState.ExitCode() != 0
+			neg[i] = c
+		}(i, pf)
+	}
+	wg.Wait()
+	negFailed := 0
+	var negFired []ctl
+	for _, c := range neg {
+		if c.Applied && c.Fired {
+			negFailed++
+			negFired = append(negFired, c)
+			fmt.Fprintf(os.Stderr, "negative control failed: behaviour-preserving refactoring %s is reported by %s (%v)\n", c.Seed, id, c.Rules)
+		}
+	}
+	r.Inv["negative_controls_run"] = len(neg)
+	r.Inv["negative_controls_failed"] = negFailed
+	if len(negFired) > 0 {
+		r.Inv["negative_controls_fired"] = negFired
+	}
 	failed := 0
 	for _, c := range results {
 		if c.Applied && !c.Fired {
